@@ -93,7 +93,7 @@ impl Aml for RQSC {
     }
 }
 
-#[derive(Clone, Debug, Default)]
+#[derive(Clone, Debug)]
 pub struct QoSController {
     /// Identifies the specific register interface that is supported by this
     /// controller
@@ -126,6 +126,13 @@ pub struct QoSController {
     /// List of Resource Structures asssociated with this specific QoS
     /// controller.
     resource_structure: Vec<ResourceStructure>,
+}
+
+impl Default for QoSController {
+    /// An empty capacity controller: like `new`, it starts from the 28-byte fixed part.
+    fn default() -> Self {
+        Self::new(ControllerType::Capacity, gas::GAS::default(), 0, 0, 0)
+    }
 }
 
 impl QoSController {
